@@ -50,7 +50,9 @@ Inductive seq :=
 | QIfLM (t e k : seq)
 | QLoop (b k : seq).
 
-Record vrow := mkVRow { vid : positive; vname : string; vvis : vis; vnpar : nat; vbody : seq }.
+(* what an entry point has to validate about a parameter, from its C type and name *)
+Inductive pkind := PH | PI | PN | PE | PO.        (* file handle, entity index, node name, enumeration, other *)
+Record vrow := mkVRow { vid : positive; vname : string; vvis : vis; vpk : list pkind; vbody : seq }.
 
 Definition counted (v : vclass) : bool := match v with CState => false | _ => true end.
 Definition failing (r : rkind) : bool := match r with RErr | RVar => true | _ => false end.
@@ -457,9 +459,11 @@ Definition known_late : list string :=
    "cg_coord_info"; "cg_coord_read"; "cg_coord_general_read"; "cg_coord_id"; "cg_coord_write"; "cg_coord_partial_write";
    "cg_coord_general_write"; "cg_particle_coord_info"; "cg_particle_coord_read"; "cg_particle_coord_general_read";
    "cg_particle_coord_id"; "cg_particle_coord_write"; "cg_particle_coord_partial_write"; "cg_particle_coord_general_write";
-   (* [G] the ZoneGridConnectivity_t container is created and counted (zone->nzconn = 1) before the ranges / enums are checked *)
-   "cg_hole_write"; "cg_conn_write"; "cg_conn_write_short"; "cg_1to1_write";
-   (* [G] an argument is validated after an existing node was deleted / a new node was written *)
+   (* [G] the ZoneGridConnectivity_t container is created and counted (zone->nzconn = 1) before the ranges are checked
+      (cg_1to1_write: confirmed); the same shape, but no failing input found: cg_hole_write, cg_conn_write, cg_conn_write_short *)
+   "cg_1to1_write"; "cg_hole_write"; "cg_conn_write"; "cg_conn_write_short";
+   (* [G] an argument is validated after an existing node was deleted / a new node was written (each confirmed);
+      cg_boco_normal_write: "already defined" test of the normal index after the normal list was written (not confirmed) *)
    "cg_family_write"; "cg_geo_write"; "cg_node_geo_write"; "cg_gridlocation_write"; "cg_bcdataset_write"; "cg_boco_normal_write";
    (* [P] cgi_array_general_write: the size checks against an existing array follow cgi_array_address, which allocates only
       on the path where there is no existing array; [D] its callers *)
@@ -702,7 +706,7 @@ Definition sm_stable_b (t : list vrow) (m : smap) : bool :=
                     forallb (fun k => imem k (sm_get m (vid r))) l) t.
 Definition prepare (t : list vrow) : list vrow :=
   let m := summaries t in
-  map (fun r => mkVRow (vid r) (vname r) (vvis r) (vnpar r) (fst (fst (prep (sm_get m) [] (vbody r))))) t.
+  map (fun r => mkVRow (vid r) (vname r) (vvis r) (vpk r) (fst (fst (prep (sm_get m) [] (vbody r))))) t.
 
 (* ------------------------------------------------------------------------------------------------ for the extracted engine *)
 (* the argument checks a call certainly passes before anything else can return: the spine of the body.  A check is on the
@@ -757,8 +761,77 @@ Definition vclass_tag (v : vclass) : string :=
   | CHandle => "handle" | COpen => "open" | CMode MRead => "mode-read" | CMode MWrite => "mode-write" | CMode MModify => "mode-modify"
   | CIndex => "index" | CName => "name" | CEnum => "enum" | CRange => "range" | CNull => "null" | CState => "state"
   end%string.
+(* CLAIMS COMPLETENESS: every handle / index / name / enumeration parameter of an entry point is certainly validated (a check
+   of a matching class on the spine, directly or through a delegate) -- or is named in Validate.known_unvalidated *)
+Definition kind_matches (k : pkind) (v : vclass) : bool :=
+  match k, v with
+  | PH, CHandle => true
+  | PI, CIndex | PI, CRange => true
+  | PN, CName => true
+  | PE, CEnum | PE, CRange => true
+  | _, _ => false
+  end.
+Fixpoint unclaimed_from (n : positive) (ks : list pkind) (cl : list (positive * vclass)) : list positive :=
+  match ks with
+  | [] => []
+  | k :: ks' =>
+    (match k with
+     | PO => []
+     | _ => if existsb (fun pc => Pos.eqb (fst pc) n && kind_matches k (snd pc)) cl then [] else [n]
+     end) ++ unclaimed_from (Pos.succ n) ks' cl
+  end.
+Definition unclaimed (rows : positive -> option vrow) (r : vrow) : list positive :=
+  unclaimed_from 1 (vpk r) (claims 4 rows (vbody r)).
 Definition claims_all (t : list vrow) : list (string * list (positive * string)) :=
   map (fun r => (vname r, map (fun pc => (fst pc, vclass_tag (snd pc))) (claims 4 (vrows_of t) (vbody r)))) (filter vis_api t).
+
+(* (entry point, 1-based parameter position) pairs for which no validation is found on the spine of the CURRENT code.  The
+   list is exact (recomputed by unclaimed_all on every run); a pair that is not listed and becomes unclaimed -- a check that
+   was removed or moved behind a branch -- breaks C12_parameters_validated.  Reasons: the cg_<Enum>Name functions return
+   "<invalid>" by design; node-context readers validate their index inside the cgi_*_address resolvers through a flag the
+   skeleton does not follow; cgio_* names are validated by the back ends; wrappers whose spine ends at a branch; and the
+   genuinely missing checks reported as findings (cg_biter_write bitername, cg_node_fambc_write fambc_name, cg_dataclass_write,
+   cg_*_ptset_write ptset_type, cg_exponents_write / cg_expfull_write / cg_conversion_write DataType, cg_boco_normal_write
+   NormalDataType, the count functions cg_n*, cg_section_general_write elementDataType ...) *)
+Definition known_unvalidated : list (string * positive) :=
+  [("cg_MassUnitsName"%string, 1%positive); ("cg_LengthUnitsName"%string, 1%positive); ("cg_TimeUnitsName"%string, 1%positive); ("cg_TemperatureUnitsName"%string, 1%positive); 
+   ("cg_AngleUnitsName"%string, 1%positive); ("cg_ElectricCurrentUnitsName"%string, 1%positive); ("cg_SubstanceAmountUnitsName"%string, 1%positive); 
+   ("cg_LuminousIntensityUnitsName"%string, 1%positive); ("cg_DataClassName"%string, 1%positive); ("cg_GridLocationName"%string, 1%positive); ("cg_BCDataTypeName"%string, 1%positive); 
+   ("cg_GridConnectivityTypeName"%string, 1%positive); ("cg_PointSetTypeName"%string, 1%positive); ("cg_GoverningEquationsTypeName"%string, 1%positive); 
+   ("cg_ModelTypeName"%string, 1%positive); ("cg_BCTypeName"%string, 1%positive); ("cg_DataTypeName"%string, 1%positive); ("cg_ElementTypeName"%string, 1%positive); 
+   ("cg_ZoneTypeName"%string, 1%positive); ("cg_RigidGridMotionTypeName"%string, 1%positive); ("cg_ArbitraryGridMotionTypeName"%string, 1%positive); 
+   ("cg_SimulationTypeName"%string, 1%positive); ("cg_WallFunctionTypeName"%string, 1%positive); ("cg_AreaTypeName"%string, 1%positive); 
+   ("cg_AverageInterfaceTypeName"%string, 1%positive); ("cg_ParticleGoverningEquationsTypeName"%string, 1%positive); ("cg_ParticleModelTypeName"%string, 1%positive); 
+   ("cg_zone_write"%string, 5%positive); ("cg_node_family_read"%string, 1%positive); ("cg_node_family_name_read"%string, 1%positive); ("cg_node_fambc_write"%string, 1%positive); 
+   ("cg_discrete_ptset_write"%string, 5%positive); ("cg_grid_bounding_box_write"%string, 5%positive); ("cg_ncoords"%string, 2%positive); ("cg_ncoords"%string, 3%positive); 
+   ("cg_coord_read"%string, 4%positive); ("cg_coord_general_read"%string, 4%positive); ("cg_section_write"%string, 1%positive); ("cg_poly_section_write"%string, 2%positive); 
+   ("cg_poly_section_write"%string, 3%positive); ("cg_poly_section_write"%string, 4%positive); ("cg_poly_section_write"%string, 5%positive); 
+   ("cg_section_general_write"%string, 1%positive); ("cg_section_general_write"%string, 2%positive); ("cg_section_general_write"%string, 3%positive); 
+   ("cg_section_general_write"%string, 6%positive); ("cg_elements_general_write"%string, 7%positive); ("cg_poly_elements_general_write"%string, 7%positive); 
+   ("cg_sol_ptset_write"%string, 5%positive); ("cg_field_read"%string, 5%positive); ("cg_field_general_read"%string, 5%positive); ("cg_subreg_ptset_write"%string, 6%positive); 
+   ("cg_subreg_bcname_write"%string, 6%positive); ("cg_subreg_gcname_write"%string, 6%positive); ("cg_nholes"%string, 2%positive); ("cg_nholes"%string, 3%positive); ("cg_nconns"%string, 2%positive); 
+   ("cg_nconns"%string, 3%positive); ("cg_conn_read"%string, 6%positive); ("cg_conn_write"%string, 1%positive); ("cg_conn_write"%string, 2%positive); ("cg_conn_write"%string, 3%positive); 
+   ("cg_conn_write"%string, 11%positive); ("cg_conn_write"%string, 12%positive); ("cg_conn_write"%string, 13%positive); ("cg_conn_write_short"%string, 1%positive); 
+   ("cg_conn_write_short"%string, 2%positive); ("cg_conn_write_short"%string, 3%positive); ("cg_n1to1"%string, 2%positive); ("cg_n1to1"%string, 3%positive); ("cg_nbocos"%string, 2%positive); 
+   ("cg_nbocos"%string, 3%positive); ("cg_boco_write"%string, 5%positive); ("cg_boco_write"%string, 6%positive); ("cg_boco_gridlocation_write"%string, 5%positive); 
+   ("cg_boco_normal_write"%string, 7%positive); ("cg_biter_write"%string, 3%positive); ("cg_particle_bounding_box_write"%string, 5%positive); 
+   ("cg_particle_ncoords"%string, 2%positive); ("cg_particle_ncoords"%string, 3%positive); ("cg_particle_coord_read"%string, 4%positive); 
+   ("cg_particle_coord_general_read"%string, 4%positive); ("cg_particle_field_read"%string, 5%positive); ("cg_particle_field_general_read"%string, 5%positive); 
+   ("cg_goto"%string, 2%positive); ("cg_goto_f08"%string, 2%positive); ("cg_gorel"%string, 1%positive); ("cg_gorel_f08"%string, 1%positive); ("cg_gopath"%string, 1%positive); ("cg_famname_write"%string, 1%positive); 
+   ("cg_multifam_read"%string, 1%positive); ("cg_array_info"%string, 1%positive); ("cg_array_read"%string, 1%positive); ("cg_array_read_as"%string, 1%positive); 
+   ("cg_array_read_as"%string, 2%positive); ("cg_array_general_read"%string, 1%positive); ("cg_array_general_read"%string, 4%positive); ("cg_integral_read"%string, 1%positive); 
+   ("cg_descriptor_read"%string, 1%positive); ("cg_exponents_write"%string, 1%positive); ("cg_expfull_write"%string, 1%positive); ("cg_conversion_write"%string, 1%positive); 
+   ("cg_dataclass_write"%string, 1%positive); ("cg_link_write"%string, 1%positive); ("cg_user_data_read"%string, 1%positive); ("cg_ptset_write"%string, 1%positive); 
+   ("cg_bcdataset_read"%string, 1%positive); ("cgio_create_node"%string, 3%positive); ("cgio_new_node"%string, 3%positive); ("cgio_copy_node"%string, 3%positive); 
+   ("cgio_create_link"%string, 3%positive); ("cgio_get_node_id"%string, 3%positive); ("cgio_set_name"%string, 4%positive)].
+Definition pmem (p : string * positive) (l : list (string * positive)) : bool :=
+  existsb (fun q => String.eqb (fst p) (fst q) && Pos.eqb (snd p) (snd q)) l.
+Definition kinds_row_ok (t : list vrow) (r : vrow) : bool :=
+  implb (vin_domain r) (forallb (fun p => pmem (vname r, p) known_unvalidated) (unclaimed (vrows_of t) r)).
+Definition kinds_claimed_b (t : list vrow) : bool := forallb (kinds_row_ok t) t.
+Definition unclaimed_all (t : list vrow) : list (string * list positive) :=
+  filter (fun x => match snd x with [] => false | _ => true end)
+         (map (fun r => (vname r, unclaimed (vrows_of t) r)) (filter vin_domain t)).
 
 (* open modes an entry point certainly rejects: the mode checks on its spine (also through delegates) *)
 Fixpoint mode_gates (depth : nat) (rows : positive -> option vrow) (q : seq) : list gmode :=
